@@ -1,5 +1,6 @@
 """C11 - typed and pasted text is delivered rune for rune."""
 from checks import inputfam
+from lib import vlib
 
 
 def run(ctx):
@@ -21,6 +22,20 @@ def run(ctx):
             d["tty"] = tty
         ctx.add_violations(mine, tf, label="paste-" + tty)
         ctx.cov["paste_runs_" + tty] = s["histories"]
+    # a program that does not link tcell/encoding: the charsets tcell always registers (UTF-8, US-ASCII and their aliases)
+    import os
+    import subprocess
+    bare = os.path.join(ctx.work, "vhbare")
+    b = subprocess.run(["go", "build"] + vlib.modfile_args(ctx.work) + ["-tags", "verif", "-o", bare, "./cmd/vhbare"], cwd=vlib.HARNESS,
+                       env=dict(os.environ, **vlib.GOENV), stdout=subprocess.PIPE, stderr=subprocess.STDOUT, text=True)
+    if b.returncode != 0:
+        vlib.log(b.stdout)
+        raise vlib.MachineryError("bare harness does not build")
+    tfb = ctx.work + "/bare.ndjson"
+    sb, _ = ctx.run_vh([tfb], binary=bare, timeout=600)
+    rb = ctx.validate("InputTrace", tfb, expect_events=sb.get("events"), timeout=600, subdir="bare")
+    ctx.add_violations([d for d in rb["devs"] if d["tag"].startswith("C11.")], tfb, label="bare")
+    ctx.cov["bare_locale_settings"] = sb.get("histories")
     ctx.assumptions += ["source strings are encoded with the x/text encoder of the charset (trusted), independent instance"]
     ctx.finish("exploration",
                rule="per stateless charset (24) and 3 terminals: strings of 1-4 encodable printable runes (every sampled rune at "
